@@ -5,6 +5,7 @@ package chainmon
 import (
 	"fmt"
 	"sort"
+	"strings"
 	"testing"
 
 	"verif/internal/ev"
@@ -41,6 +42,11 @@ func (m *EpochMon) AfterTx(s *Sim, r *TxRes) {
 
 func (m *EpochMon) AfterBlock(s *Sim, b *BlockRes) {
 	if b.Panic != "" {
+		// epoch bookkeeping that cannot find the epoch / window of a block it still keeps panics inside the epochstorage
+		// keeper: the mapping clause is broken right there (the halted chain cannot be queried any more)
+		if fr := lavaFrames(b.Stack); len(fr) > 0 && strings.HasPrefix(fr[0], "x/epochstorage/keeper") {
+			m.Run.Violation("epoch-bookkeeping-panicked", panicSignature(b.Phase, b.Stack), fmt.Sprintf("block %d: %s", b.Height, oneline(b.Panic)), m.wit(s, b.Step))
+		}
 		return
 	}
 	ctx := s.TS.Ctx
